@@ -65,6 +65,8 @@ func (c *Collection) Snapshot(dst io.Writer) error {
 
 	// Take a snapshot of the current state
 	defer os.Remove(recorder.Name())
+	defer recorder.Close()
+	defer c.recorderRelease(recorder)
 	verifYield("s.open", 0)
 	if _, err := c.writeState(s2.NewWriter(dst)); err != nil {
 		return err
@@ -83,6 +85,8 @@ func (c *Collection) recorderOpen() (log *commit.Log, err error) {
 		dst := (*unsafe.Pointer)(unsafe.Pointer(&c.record))
 		ptr := unsafe.Pointer(log)
 		if !atomic.CompareAndSwapPointer(dst, nil, ptr) {
+			log.Close()
+			os.Remove(log.Name())
 			return nil, fmt.Errorf("column: unable to snapshot, another one might be in progress")
 		}
 	}
@@ -95,6 +99,13 @@ func (c *Collection) recorderClose() {
 		dst := (*unsafe.Pointer)(unsafe.Pointer(&c.record))
 		atomic.StorePointer(dst, nil)
 	}
+}
+
+// recorderRelease uninstalls the given recorder unless it was closed already; it leaves a
+// recorder installed by a later snapshot alone
+func (c *Collection) recorderRelease(log *commit.Log) {
+	dst := (*unsafe.Pointer)(unsafe.Pointer(&c.record))
+	atomic.CompareAndSwapPointer(dst, unsafe.Pointer(log), nil)
 }
 
 // isSnapshotting loads a currently used commit log for a pending snapshot
